@@ -1,7 +1,7 @@
 (* C19 -- Type descriptions round-trip and inferred schemas accept their data.
    Only statements, each closed by [exact] of a lemma from PV.Proofs.Types*. *)
 From Coq Require Import ZArith NArith List Bool String.
-Require Import PV.Base.Val PV.Gen.TypeTables PV.Model.Types PV.Proofs.TypesJson.
+Require Import PV.Base.Val PV.Gen.TypeTables PV.Model.Types PV.Proofs.TypesJson PV.Proofs.TypesRows.
 Import ListNotations.
 Open Scope Z_scope.
 
@@ -31,3 +31,74 @@ Example json_example :
   = Ok (TStruct [SField (lit "a") (TArray (TDecimal 10 (-2)) false) true [(lit "k", JInt 1)];
                  SField (lit "b") (TMap (TAtom AString) (TAtom ATimestamp) true) false []]).
 Proof. vm_compute. reflexivity. Qed.
+
+(* ---- Verification rejects values of the wrong Python type, out-of-range integers and nulls in
+   non-nullable fields -- at the top level and at any depth (array element, map key, map value, field of a
+   struct given as a tuple or as a Row).  [damaged t nullable v] says that v holds, at one position, a
+   null where the type is not nullable, a value that is not an instance of the accepted Python classes
+   (regenerated table _acceptable_types; StringType accepts anything by design and is excluded), or an
+   integer outside the bounds of a ranged type (regenerated from get_verifier). *)
+Theorem C19_verify_rejects : forall t nullable v, damaged t nullable v -> verify t nullable v <> Ok tt.
+Proof. exact verify_rejects. Qed.
+
+(* the exact exception at the damaged position *)
+Theorem C19_verify_null : forall t, verify t false PNone = Err EValue.
+Proof. exact verify_null_rejected. Qed.
+Theorem C19_verify_wrong_type : forall t n v classes,
+  atom_like t \/ (exists e b, t = TArray e b) \/ (exists k x b, t = TMap k x b) ->
+  is_none v = false -> smem (dtype_class t) nocheck_types = false ->
+  slookup (dtype_class t) acceptable_types = Some classes -> isinstance v classes = false ->
+  verify t n v = Err EType.
+Proof. exact verify_wrong_type. Qed.
+Theorem C19_verify_out_of_range : forall a n z lo hi,
+  slookup (atomic_class a) ranged_types = Some (lo, hi) -> (z < lo \/ hi < z) ->
+  verify (TAtom a) n (PInt z) = Err EValue.
+Proof. exact verify_out_of_range. Qed.
+Theorem C19_ranges_are_the_signed_widths :
+  slookup "ByteType" ranged_types = Some (- 2 ^ 7, 2 ^ 7 - 1) /\
+  slookup "ShortType" ranged_types = Some (- 2 ^ 15, 2 ^ 15 - 1) /\
+  slookup "IntegerType" ranged_types = Some (- 2 ^ 31, 2 ^ 31 - 1).
+Proof. exact ranged_types_are_the_signed_widths. Qed.
+
+(* "out-of-range integers" read for every integral type: false for LongType today (open finding
+   verify:out-of-range-accepted:long) -- get_verifier has no branch for LongType *)
+Definition C19_out_of_range_full : Prop :=
+  forall a n z, In a [AByte; AShort; AInteger; ALong] ->
+    (z < - 2 ^ (match a with AByte => 7 | AShort => 15 | AInteger => 31 | _ => 63 end) \/
+     2 ^ (match a with AByte => 7 | AShort => 15 | AInteger => 31 | _ => 63 end) - 1 < z) ->
+    verify (TAtom a) n (PInt z) <> Ok tt.
+Theorem C19_out_of_range_partial : forall a n z, In a [AByte; AShort; AInteger] ->
+    (z < - 2 ^ (match a with AByte => 7 | AShort => 15 | AInteger => 31 | _ => 63 end) \/
+     2 ^ (match a with AByte => 7 | AShort => 15 | AInteger => 31 | _ => 63 end) - 1 < z) ->
+    verify (TAtom a) n (PInt z) <> Ok tt.
+Proof. exact out_of_range_partial. Qed.
+Theorem C19_out_of_range_refuted : ~ C19_out_of_range_full.
+Proof. exact out_of_range_refuted. Qed.
+
+Example damaged_example :
+  damaged (TStruct [SField (lit "a") (TArray (TAtom AByte) false) true []]) true
+          (PRow [lit "a"] [PList [PInt 1; PInt 128]]).
+Proof.
+  apply (D_row_field [SField (lit "a") (TArray (TAtom AByte) false) true []] true [PList [PInt 1; PInt 128]]
+                     0%nat (SField (lit "a") (TArray (TAtom AByte) false) true []) (PList [PInt 1; PInt 128])).
+  - repeat constructor. intros [].
+  - reflexivity.
+  - reflexivity.
+  - apply (D_element _ _ _ _ (PInt 128)); [right; now left|].
+    apply (D_range AByte false 128 (-128) 127); [reflexivity|right; reflexivity].
+Qed.
+
+(* ---- Rows keep their field names and values through pickling and asDict.
+   [pickle_dumps]/[pickle_loads] model what the pickle module does with containers and what
+   Row.__reduce__ / create_row contribute (the byte format is a black box). *)
+Theorem C19_row_pickle_roundtrip : forall v : pyval, pickle_loads (pickle_dumps v) = Ok v.
+Proof. exact pickle_roundtrip. Qed.
+Theorem C19_row_asDict : forall names vals, NoDup names ->
+  as_dict (PRow names vals) = Ok (PDict (combine (map PStr names) vals)).
+Proof. exact as_dict_spec. Qed.
+Theorem C19_row_asDict_recursive : forall names vals, NoDup names ->
+  as_dict_conv (PRow names vals) = PDict (combine (map PStr names) (map as_dict_conv vals)).
+Proof. exact as_dict_conv_spec. Qed.
+Theorem C19_row_asDict_lookup : forall names vals n i, NoDup names -> List.length names = List.length vals ->
+  nth_error names i = Some n -> Some (dict_get n (combine (map PStr names) vals)) = nth_error vals i.
+Proof. exact dict_get_combine. Qed.
